@@ -470,6 +470,21 @@ def rule_commit(facts):
     inloop = set()
     for h_, bl_, _ in c.loops():
         inloop |= bl_
+    # the decoder may stop early ("wait for more input") only when a dry run has failed: any other early success in
+    # Partial mode leaves symbols undecoded that the input already determines
+    from rules import C08 as _c08
+    errsw_true = []
+    for (bb_, t_, z_, nz_) in gs:
+        if pat.has_call(t_, "Result::is_err") and pat.has_call(t_, "try_process_next"):
+            errsw_true.append(nz_)
+    oksrc = [o for o, k in flow.ret_sources(p).items() if k in ("ok", "any", "other")]
+    for o in oksrc:
+        if _c08.partial_guarded(facts, p, gs, c, o):
+            if any(c.dominates(e, o) or e == o for e in errsw_true):
+                r.ok("path", None)
+            else:
+                r.bad("commit|early-stop", "in Partial mode the decoder can stop early although no dry run has failed: output that the input "
+                      "already determines is held back", pat.where(p, o))
     # the protocol concerns the decoding loop; steps after it (e.g. end-marker handling in Finish mode) are not streaming steps
     tries = [blk for blk in p.calls() if (flow.callee(blk.term) or "").endswith("try_process_next") and blk.idx in inloop]
     commits = [blk for blk in p.calls() if (flow.callee(blk.term) or "").endswith("DecoderState::process_next") and blk.idx in inloop]
@@ -664,6 +679,21 @@ def rule_header_retry(facts):
     check(h, "input")
     r.sites = n
     r.need("at least 3 header reads (found %d)" % n, n >= 3)
+    # "stay in the Header state" may be answered only for the two reasons that mean "need more bytes": HeaderTooShort from
+    # read_header, or a range-decoder preamble that could not be read - never because of how much the reader shows at once
+    tsh = Terms(sh)
+    csh = cfg(sh)
+    hdr_aggs = [blk.idx for blk in sh.blocks if not blk.cleanup for s_ in blk.stmts
+                if s_.k == "assign" and s_.rv.k == "aggregate" and s_.rv.agg == "adt" and s_.rv.adt_name.endswith("stream::State") and
+                (s_.rv.variant_name or "").endswith("Header")]
+    rh = [blk.idx for blk in sh.calls() if (flow.callee(blk.term) or "").endswith("LzmaParams::read_header")]
+    rn = [blk.idx for blk in sh.calls() if (flow.callee(blk.term) or "").endswith("RangeDecoder::new")]
+    for hb_ in hdr_aggs:
+        if rh and (csh.dominates(rh[0], hb_)):
+            r.ok("cause", None)
+        else:
+            r.bad("retry|other-cause", "Stream::read_header answers 'need more bytes' without having tried to parse the header: whether a "
+                  "short stream is ever decoded then depends on something else (e.g. how many bytes are visible at once)", pat.where(sh, hb_))
     # Stream::read_header: HeaderTooShort -> Ok(State::Header(output)); a failing range-decoder preamble likewise
     ts = Terms(sh)
     c = cfg(sh)
